@@ -17,7 +17,8 @@ CHECKS = {
          'then every graph TLC explored plus random larger ones is run through the real code and '
          'TLC decides, record by record, whether the observed paths/depths/sets/paths are admissible.',
     note='Trusted: TLC, the LMF materialiser, sqlite. Strings are atoms. On cyclic graphs the '
-         'property leaves two readings of depth / fake root open; both are admitted there only.',
+         'property leaves two readings of depth / fake root open; both are admitted there only. A seeded part '
+         'of the graphs is materialised spread over a lexicon and an extension of it (same model graph).',
     design='DESIGN.md section 4 C13'),
  'C14': dict(
     engine='taxonomy',
@@ -30,7 +31,8 @@ CHECKS = {
          'pair of every generated graph whether the value (and the wn.Error cases) is admissible, symmetric '
          'and maximal for identical synsets.',
     note='Trusted: TLC, float->rational recovery in the harness (tolerance 1e-9, logarithms undone by exp), '
-         'materialiser. lin is checked with power-of-two weights only.',
+         'materialiser. lin is checked with power-of-two weights only. Part of the graphs is spread over a '
+         'lexicon and an extension of it.',
     design='DESIGN.md section 4 C14'),
  'C15': dict(
     engine='taxonomy',
@@ -42,7 +44,8 @@ CHECKS = {
          'per-path walk of the original code differs exactly on convergent graphs; every weight, total, '
          'probability and information content recorded from compute() on generated graphs x corpora x '
          'distribute x smoothing is compared by TLC.',
-    note='Trusted: TLC, float->rational recovery, materialiser. One (folded) part of speech per graph.',
+    note='Trusted: TLC, float->rational recovery, materialiser. One (folded) part of speech per graph; part of '
+         'the graphs is spread over a lexicon and an extension of it.',
     design='DESIGN.md section 4 C15'),
  'C05': dict(
     engine='store',
@@ -74,10 +77,10 @@ CHECKS = {
  'C07': dict(
     engine='store',
     category='model_checking',
-    technique='TLA+ WnStore (route-independent Add, Idempotent, SkipWhole checked by TLC); 14 supply routes x resources x start '
+    technique='TLA+ WnStore (route-independent Add, Idempotent, SkipWhole checked by TLC); 16 supply routes x resources x start '
               'states executed on the code, each step judged by TLC, content digests judged functional in the resource',
     text='The model action Add does not mention the route; TLC checks idempotence and whole-skipping of extensions without base. '
-         'Every resource is supplied as xml, gz, xz, package, collection, tar/tar.gz/tar.xz of file, package and collection, '
+         'Every resource is supplied as xml, gz, xz (also written in several members / streams), package, collection, tar/tar.gz/tar.xz of file, package and collection, '
          'in-memory resource (also the same object again), then repeated through another route; arbitrary path trees are judged '
          'against WnProject (which paths are refused, which resources are found); TLC checks the successor state, '
          'that repetition changes nothing (raw digest), inputs unchanged, no temporary file left, and that the stored content '
